@@ -63,6 +63,9 @@ PLANS = {
     "C15": [enum_retain("native", 8, 9, random=300, tiers=("quick",)), enum_retain("native", 16, 12, random=4000, tiers=("thorough",)),
             enum_retain("miri", 16, 3, bare=True, tiers=("quick",)), enum_retain("miri", 16, 5, bare=True, tiers=("thorough",)),
             hist("retain", 6, 480000, 4500000)],
+    "C16": [job("inject", "native", 12, [], budget={"quick": 40000, "thorough": 1500000}, budget_arg="cases", reports_to=MEM),
+            job("inject", "asan", 4, ["--markers", "1"], budget={"quick": 15000, "thorough": 400000}, budget_arg="cases", reports_to=MEM, asan_options=ASAN_NOLEAK),
+            job("inject", "miri", 16, ["--markers", "1", "--further-min", "2", "--further-max", "5"], budget={"quick": 25, "thorough": 800}, budget_arg="cases", reports_to=MEM, miri_flags=LEAK_OK_MIRI + " -Zmiri-disable-stacked-borrows")],
     "C17": [enum_iter("native", 8, 6, True, random=300, extra=1, tiers=("quick",)), enum_iter("native", 16, 9, True, random=3000, extra=1, tiers=("thorough",)),
             enum_iter("asan", 4, 5, True, extra=1, tiers=("quick",), asan_options=ASAN_NOLEAK), enum_iter("asan", 12, 7, True, extra=1, random=1000, tiers=("thorough",), asan_options=ASAN_NOLEAK),
             enum_iter("miri", 16, 2, True, extra=1, bare=True, tiers=("quick",), miri_flags=LEAK_OK_MIRI), enum_iter("miri", 16, 4, True, extra=1, bare=True, tiers=("thorough",), miri_flags=LEAK_OK_MIRI)],
@@ -87,6 +90,8 @@ FLOORS = {
     "C13": {"evaluations": {"quick": 50000, "thorough": 1500000}, "distinct": 60, "c13_auto_growth": 500, "c13_shrunk": 500, "c13_alloc_failures_injected": 200, "c13_try_reserve_err_capacity": 200, "c13_with_capacity_inserts": 500},
     "C14": {"evaluations": {"quick": 100000, "thorough": 3000000}, "distinct": 100, "c14_ops_with_sibling_caches": 50000},
     "C15": {"evaluations": {"quick": 2000, "thorough": 20000}, "distinct": 60},
+    "C16": {"evaluations": {"quick": 200000, "thorough": 5000000}, "distinct": 1000, "each:c16_fired_": 20, "c16_hash_panic_in_explicit_rebuild": 1000, "c16_hash_panic_in_growing_insert": 300,
+            "c16_further_use_ops": 100000, "c16_dropped_after": 100000},
     "C17": {"evaluations": {"quick": 10000, "thorough": 100000}, "distinct": 2000, "sum:c17_forgot_": 2000, "c17_forgot_drain": 300, "c17_further_use_ops": 2000, "c17_caches_dropped_after_forget": 1000},
     "C20": {"evaluations": {"quick": 300000, "thorough": 10000000}, "distinct": 150, "c20_rebuilds": 2000, "c20_with_departures": 5000},
     "C10": {"evaluations": {"quick": 100000, "thorough": 3000000}, "distinct": 40, "each:c10_": 100},
@@ -105,6 +110,7 @@ RULES = {
     "C13": "Histories with capacity operations anywhere (arguments 0, small, len, capacity+-1, usize::MAX, usize::MAX-len), allocator refusal injected into try_reserve, automatic growth compared with the capacity a fresh with_capacity(2*len) table gets from the library itself, with_capacity(n) promise, growth bound tracked per history. distinct = (operation, rebuilt?, length class, argument class, outcome).",
     "C14": "Clone checked against its source right after clone() (ids, order, recorded sizes, scalars, capacity, disjoint object ids and node addresses, source fingerprint unchanged); afterwards every operation on any cache must leave every sibling cache's observation and structural fingerprint unchanged. Also under ASan and Miri (shared ownership would be a double free). distinct = (length class, hasher, tombstones?, ...) and (operation, sibling length).",
     "C15": "Exhaustive enumeration of all 2^n reject-subsets (by recency position) for n <= N on caches with shuffled recency order, tombstones and a reallocation; predicate call log must equal the pre-order with the stored addresses; survivors, len/current_size, ledger of rejected objects. Plus patterned/random predicates on lists up to 60 and retain inside random histories. distinct = (length class, subset shape, #rejected class, hasher).",
+    "C16": "Fault enumeration: small cache states built by random histories (0-14 events, universe 3-8, all hashers, incl. table exactly full and cache full); for each state ~40 operations covering the whole mutating and cloning API; a counting run yields the number of user callbacks per class (hash, eq, clone, key size, value size, mutate closure, retain predicate); then for EVERY class and EVERY index n the state is rebuilt by replay, the n-th callback panics, and the monitor checks: hook walk both ways mirrors / == len() / node set == buckets, public traversals and lookups agree, current_size == sum of recorded sizes, no held object dropped, no double drop; closure panics additionally bound + nothing lost; then 6-20 further random operations with the same checks, then drop. Same under ASan and Miri (touching a freed bucket is a hard report). evaluations = injected panics that fired; distinct = (operation, class, index, state length, hasher, rebuilt?, post length).",
     "C17": "Fault enumeration: for each of the 7 iterator kinds, every length 0..=N and every next/next_back string of length <= len+1, the iterator is mem::forget-ed; afterwards the cache (if any) is observed (gate G1-G3), must not list any object the iterator handed out, is used by ~12 further operations with all transition oracles on, and is dropped; the ledger must show no double drop. Same under ASan (leak check off) and Miri (-Zmiri-ignore-leaks).",
     "C20": "Hash-call counter (owned + borrowed key forms) read around every API call: <= 2 + departures, + held entries only when the hook shows the table was re-allocated by an operation allowed to rebuild; == 0 for traversals, clear, drain, peek_lru/peek_mru. distinct = (operation, length class, #departures class, rebuilt?, #hashes).",
     "C10": "insert/try_insert with sizes aimed at both sides of every threshold; classification, payload, identity of the returned pair and 'nothing changed' computed from the pre-state. distinct = (insert|try_insert, which failure conditions hold at once, boundary hit, length class, cache exactly full?).",
